@@ -58,6 +58,14 @@ func removeJob(d *Desc, s, j int) {
 			}
 		}
 		jd.Deps = deps
+		if jd.Ctx == CtxOwnCancelledBy {
+			switch {
+			case jd.CtxBy == j:
+				jd.Ctx, jd.CtxBy = CtxOwnLive, 0 // its canceller is gone
+			case jd.CtxBy > j:
+				jd.CtxBy--
+			}
+		}
 		jobs = append(jobs, jd)
 	}
 	sd.Jobs = jobs
@@ -177,6 +185,7 @@ func Minimise(t *testing.T, d *Desc, prop, class string, maxTrials int) (*Desc, 
 					func(jd *JobD) bool { x := jd.Cancel; jd.Cancel = false; return x },
 					func(jd *JobD) bool { x := jd.Stuck; jd.Stuck = false; return x },
 					func(jd *JobD) bool { x := len(jd.Deps) > 0; jd.Deps = nil; return x },
+					func(jd *JobD) bool { x := jd.Ctx != CtxShared; jd.Ctx, jd.CtxBy = CtxShared, 0; return x },
 				}
 				for _, m := range jm {
 					c := cloneDesc(best)
